@@ -6,6 +6,7 @@ package c16
 // come from a scripted check / delivery target; a raw client reads the replies.
 
 import (
+	modconfig "github.com/foxcpp/maddy/framework/config/module"
 	"bufio"
 	"encoding/base64"
 	"errors"
@@ -126,6 +127,31 @@ type armed struct {
 	stage string // ehlo mail rcpt data
 	via   string // check-early check-init check-conn check-sender check-rcpt check-body target-start target-rcpt target-body target-commit
 	err   error
+	// act, if set, is the configured check action (modconfig.ParseActionDirective of a
+	// `fail_action reject [CODE [ENHANCED [TEXT]]]` line) the scripted check applies to its
+	// result, as every real check with an *_action directive does.
+	act *modconfig.FailAction
+}
+
+// actionDirectives: argument lists of a check's fail_action directive with a reply override
+// (docs/reference/checks/actions.md); nil = the check rejects on its own, without FailAction.
+var actionDirectives = [][]string{
+	nil, nil,
+	{"reject"},
+	{"reject", "550", "5.7.1", "Rejected by local policy"},
+	{"reject", "554", "5.7.0", "Not welcome here"},
+	{"reject", "451", "4.7.1", "Come back later"},
+	{"reject", "450", "4.7.0", "Policy check failed for now"},
+	{"reject", "552", "5.3.4", "Too much"},
+}
+
+func (w *wireRig) takeAction() *modconfig.FailAction {
+	w.mu.Lock()
+	defer w.mu.Unlock()
+	if w.cur != nil {
+		return w.cur.act
+	}
+	return nil
 }
 
 type wireRig struct {
@@ -210,6 +236,9 @@ func newRig(kind string, deferReject, withMilter bool) (*wireRig, error) {
 	chk.InitErr = func(p mx.CheckPoint) error { return w.take("check-init") }
 	chk.Result = func(p mx.CheckPoint) module.CheckResult {
 		if err := w.take("check-" + p.Stage); err != nil {
+			if act := w.takeAction(); act != nil {
+				return act.Apply(module.CheckResult{Reason: err})
+			}
 			return module.CheckResult{Reject: true, Reason: err}
 		}
 		return module.CheckResult{}
@@ -491,6 +520,36 @@ func runWireCase(t *testing.T, r *rep.Reporter, c *rep.Case, ci int) {
 		via := prng.Pick(p, viaByStage[stage])
 		utf8 := p.Bool() && stage != "ehlo"
 		a := &armed{stage: stage, via: via, err: ch.build()}
+		if strings.HasPrefix(via, "check-") && via != "check-early" && via != "check-init" {
+			// own stream: the chains and stages above stay what they were
+			pa := prng.New(r.Seed(), uint64(ci)<<16|uint64(judged+len(shapes)), "c16-wire-action")
+			if args := prng.Pick(pa, actionDirectives); args != nil {
+				act, err := modconfig.ParseActionDirective(args)
+				if err != nil {
+					t.Fatalf("c16: action directive %v refused: %v", args, err)
+				}
+				a.act = &act
+				if act.ReasonOverride != nil {
+					// The configured reply replaces the check's own: the chain the client can
+					// see is an annotated one with the configured code (the reason stays
+					// wrapped inside). Whether the configured class or the reason's decides
+					// temporariness is not stated, so only code/enhanced-code coherence,
+					// non-disclosure and ASCII are judged for it.
+					ch2 := *ch
+					ch2.Group = "action-override"
+					ch2.Annotated = true
+					ch2.BareGoSMTP = false
+					ch2.Code = act.ReasonOverride.Code
+					ch2.Enh = [3]int{int(act.ReasonOverride.EnhancedCode[0]), int(act.ReasonOverride.EnhancedCode[1]), int(act.ReasonOverride.EnhancedCode[2])}
+					ch2.MsgKind = "ascii"
+					ch2.MultiLine = false
+					ch = &ch2
+					r.Count("wire_check_action_reply_override_over_"+map[bool]string{true: "temporary", false: "non-temporary"}[ch.temporary()]+"_reason", 1)
+				} else {
+					r.Count("wire_check_action_without_override", 1)
+				}
+			}
+		}
 
 		var rp reply
 		var ioerr error
